@@ -949,9 +949,12 @@ def run_feed(R, C, enc, pieces):
     return ev
 
 
-def pieces_of(units, cuts, form):
-    """units: per-symbol data; cuts: sorted offsets into the concatenation (chars for str, bytes for bytes)"""
+def pieces_of(units, cuts, form, tail=None):
+    """units: per-symbol data; cuts: sorted offsets into the concatenation (chars for str, bytes for bytes);
+    tail: truncated trailing input (the first bytes of a multi-byte character) that completes no symbol"""
     whole = (b'' if form == 'bytes' else '').join(units)
+    if tail:
+        whole += tail
     ends, n = [], 0
     for u in units:
         n += len(u)
@@ -1177,12 +1180,14 @@ def report_trace_failures(ctx, pid, traces, verdicts, stats):
             e = t['ev'][at - 2] if 2 <= at <= len(t['ev']) + 1 else None
             upto = t['ev'][:max(0, at - 1)]
             what = (' '.join(x for ev_ in upto for x in ev_.get('syms', [])) if t['meta']['kind'] == 'ansi-trace' else
+                    ' / '.join(describe_multi(t['meta']['hist'])) if t['meta']['kind'] == 'ansi-multi' else
                     '; '.join('%s(%s)' % (ev_['m'], ', '.join(map(str, ev_['a'] + ([repr(ev_['ch'])] if ev_.get('ch') else []))))
                               for ev_ in upto))
             stats.setdefault('fails', []).append((v, t['meta'], {'screen': '%dx%d' % (t['meta']['rows'], t['meta']['cols']),
                                                                  'input_up_to_the_failing_event': what[-700:],
                                                                  'event_index': at - 1, 'event': e}, {
-                'method': (e or {}).get('m'), 'rows': t['meta']['rows'], 'cols': t['meta']['cols']}))
+                'method': (e or {}).get('m'), 'rows': t['meta']['rows'], 'cols': t['meta']['cols'],
+                'interleaved': t['meta']['kind'] == 'ansi-multi'}))
         elif v != 'ok':
             raise tlc.TLCError('trace %s: verdict %s does not belong to %s' % (t['id'], v, pid))
 
@@ -1365,20 +1370,52 @@ def rejected_self_test(ctx):
     t = {'id': 'clean', 'ev': run_screen_script(R, C, None, script)}
     if len(t['ev']) != len(script) or t['ev'][3]['obs']['raised'] != 'TypeError':
         return {'skipped': 'the real code does not refuse insert_abs(2, 1, b"x") on an encoding=None screen with TypeError'}
-    a = copy.deepcopy(t); a['id'] = 'row-shifted-by-rejected-call'
+    a = copy.deepcopy(t); a['id'] = 'row-shifted'
     a['ev'][3]['obs']['rows'] = [[2, ['x', 'x', ' ', 'y', ' ']]]
-    b = copy.deepcopy(t); b['id'] = 'cursor-moved-by-rejected-call'
+    b = copy.deepcopy(t); b['id'] = 'cursor-moved'
     b['ev'][3]['obs']['cur'] = [2, 3]
-    c = copy.deepcopy(t); c['id'] = 'bytes-taken-without-exception'
+    c = copy.deepcopy(t); c['id'] = 'no-exception'
     c['ev'][3]['obs']['raised'] = ''
-    want = {'clean': 'ok', 'row-shifted-by-rejected-call': 'C19:insert_abs-frame', 'cursor-moved-by-rejected-call': 'C19:insert_abs-cursor',
-            'bytes-taken-without-exception': 'C19:insert_abs-bytes-accepted'}
+    want = {'clean': 'ok', 'row-shifted': 'C19:insert_abs-frame', 'cursor-moved': 'C19:insert_abs-cursor',
+            'no-exception': 'C19:insert_abs-bytes-accepted'}
     v, _ = validate(ctx, [t, a, b, c], R, C, 'rejtest')
     res = {k: v[k][0] for k in v}
     if res.get('clean') != 'ok':
         return {'skipped': 'the real code fails the fixed run by itself (%s)' % res.get('clean')}
     if res != want:
         raise tlc.TLCError('binding self-test (rejected operation): trace verdicts %s, expected %s' % (res, want))
+    return res
+
+
+def multi_self_test(ctx):
+    """a fixed interleaved history of the real emulator is accepted; with the last observation of one terminal corrupted
+    in the way a decoder shared between terminals would (one more cell written, cursor one further) the trace must end
+    with C18:chunking; with a terminal id swapped the per-terminal reference must notice"""
+    import copy
+    R, C = 2, 3
+    euro = u'\u20ac'.encode('utf-8')
+    a = {'enc': 'utf-8', 'errors': 'replace', 'form': 'bytes', 'syms': ['x', 'y', 'ESC', '[', 'H', 'x'],
+         'units': [arg_json(u) for u in [b'x', euro, b'\x1b', b'[', b'H', b'x']], 'tail': None, 'cuts': [2, 5], 'lazy': False}
+    b = {'enc': 'utf-8', 'errors': 'replace', 'form': 'bytes', 'syms': ['x', 'x', 'LF', 'y'],
+         'units': [arg_json(u) for u in [b'x', b'x', b'\n', u'\xe9'.encode('utf-8')]], 'tail': arg_json(b'\xe2'), 'cuts': [1], 'lazy': True}
+    hist = {'shape': 'alternate', 'terms': [a, b], 'schedule': [0, 1, 0, 1, 0]}
+    ev, finals = run_multi(R, C, hist)
+    t = {'id': 'clean', 'ev': ev}
+    if finals is None or any(x != y for x, y in finals):
+        return {'skipped': 'the real code fails the fixed interleaved history by itself'}
+    last1 = max(i for i, e in enumerate(ev) if e['k'] == 'feed' and e['t'] == 1)
+    x = copy.deepcopy(t); x['id'] = 'leaked'
+    x['ev'][last1]['obs']['cur'] = [1, 3]
+    x['ev'][last1]['obs']['rows'] = [[1, ['x', 'y', ' ']]]
+    y = copy.deepcopy(t); y['id'] = 'swapped-id'
+    first2 = min(i for i, e in enumerate(ev) if e['k'] == 'feed' and e['t'] == 2)
+    y['ev'][first2]['t'] = 1
+    v, _ = validate(ctx, [t, x, y], R, C, 'multitest')
+    res = {k: v[k][0] for k in v}
+    if res.get('clean') != 'ok':
+        return {'skipped': 'the real code fails the fixed interleaved history by itself (%s)' % res.get('clean')}
+    if res.get('leaked') != 'C18:chunking' or res.get('swapped-id') in ('ok', None):
+        raise tlc.TLCError('binding self-test (interleaved history): trace verdicts %s' % res)
     return res
 
 
@@ -1527,6 +1564,229 @@ def _chunk_worker(rng_):
     return col
 
 
+# ---------------------------------------------------------------------------------------------
+# C18: interleaved histories - several terminals alive at once, their pieces fed alternately
+# ---------------------------------------------------------------------------------------------
+# Chunk independence is a statement about one terminal and *its* input: what other objects of the process are given
+# in between is not part of "the same input".  A history has 2 or 3 terminals (same encoding and error policy, or
+# different ones; stateful multi-byte encodings), each with its own input cut into pieces - at least one cut inside a
+# multi-byte character when there is one, possibly truncated trailing input (the first bytes of a character and then
+# nothing) - and a schedule: the order in which the pieces of the terminals are fed.  Before the schedule starts the same
+# inputs are fed at once to fresh objects of their own ("twins").  The trace carries the terminal id of every write;
+# ScreenAnsiTrace keeps one reference state per terminal and decides: C18:raised / shape / cursor / residue per write,
+# and C18:chunking when the last observation of a terminal differs from that of its twin ("same" events).  The exact
+# cell contents (which the trace abstracts to three classes) are compared here.
+MB_ENCODINGS = ['utf-8', 'utf-16-le', 'shift_jis', 'gb18030']
+MB_Y = {'utf-8': [u'\xe9', u'\u20ac', u'\U0001f600', u'\u231b', 'y'], 'utf-16-le': [u'\xe9', u'\u20ac', u'\U0001f600', 'y', u'\u6f22'],
+        'shift_jis': [u'\u3042', u'\u6f22', u'\uff71', 'y', u'\uff03'], 'gb18030': [u'\xe9', u'\u20ac', u'\U0001f600', u'\u6f22', 'y']}
+MB_BAD = {'utf-8': [b'\xff', b'\x80']}        # malformed, one U+FFFD each under errors='replace' wherever the input is cut
+ERRORS = ['replace', 'ignore', 'strict']       # ignore / strict terminals get well-formed input (strict would raise by contract)
+MULTI_SIZES = [(2, 3), (3, 4), (4, 5), (1, 3), (2, 2)]
+MULTI_SHAPES = ['alternate', 'alternate', 'lazy', 'truncated-then-fresh']
+
+
+def multi_term(rng, R, C, enc, errors, form, tail_p, lazy):
+    syms = random_input(rng, R, C, rng.randint(1, 3))
+    for _ in range(rng.randint(1, 3)):                     # multi-byte characters anywhere, also inside escape sequences
+        syms.insert(rng.randint(0, len(syms)), 'y')
+    pool = [c.encode(enc) for c in MB_Y[enc]] + (MB_BAD.get(enc, []) if errors == 'replace' else [])
+    units = []
+    for sym in syms:
+        if sym == 'y':
+            units.append(rng.choice(MB_Y[enc]) if form == 'str' else rng.choice(pool))
+        else:
+            c = SYMCHR.get(sym, sym)
+            units.append(c if form == 'str' else c.encode(enc))
+    tail = None
+    if form == 'bytes' and rng.random() < tail_p:
+        full = rng.choice([b for b in (c.encode(enc) for c in MB_Y[enc]) if len(b) > 1])
+        tail = full[:rng.randint(1, len(full) - 1)]
+    n = sum(len(u) for u in units) + len(tail or b'')
+    ends, k = set(), 0
+    for u in units:
+        k += len(u)
+        ends.add(k)
+    inside = [q for q in range(1, n) if q not in ends]
+    cuts = set()
+    if n > 1:
+        if inside:
+            cuts.add(rng.choice(inside))
+        want = min(n - 1, rng.randint(1, 3))
+        while len(cuts) < want:
+            cuts.add(rng.randint(1, n - 1))
+    return {'enc': enc, 'errors': errors, 'form': form, 'syms': syms, 'units': [arg_json(u) for u in units],
+            'tail': arg_json(tail) if tail else None, 'cuts': sorted(cuts), 'lazy': lazy}
+
+
+def multi_history(rng, R, C):
+    k = rng.choice([2, 2, 3])
+    shape = rng.choice(MULTI_SHAPES)
+    if rng.random() < 0.6:
+        modes = [(rng.choice(MB_ENCODINGS), rng.choice(ERRORS))] * k            # one decoder configuration for all
+    else:
+        modes = [(rng.choice(MB_ENCODINGS), rng.choice(ERRORS)) for _ in range(k)]
+    terms = []
+    for i, (enc, errors) in enumerate(modes):
+        form = 'str' if i > 0 and rng.random() < 0.1 else 'bytes'
+        if shape == 'truncated-then-fresh':
+            # terminal 1 is left with truncated trailing input; the others are created afterwards and get well-formed input
+            t = multi_term(rng, R, C, enc, errors, 'bytes' if i == 0 else form, 1.0 if i == 0 else 0.0, i > 0)
+            if i > 0 and rng.random() < 0.5:
+                t['cuts'] = []
+        else:
+            t = multi_term(rng, R, C, enc, errors, form, 0.3, shape == 'lazy')
+        terms.append(t)
+    left = [len(t['cuts']) + 1 for t in terms]
+    order = []
+    if shape == 'truncated-then-fresh':
+        order += [0] * left[0]
+        left[0] = 0
+    while any(left):
+        cand = [i for i in range(k) if left[i]]
+        other = [i for i in cand if not order or i != order[-1]]
+        i = rng.choice(other) if other and rng.random() < 0.85 else rng.choice(cand)
+        order.append(i)
+        left[i] -= 1
+    return {'shape': shape, 'terms': terms, 'schedule': order}
+
+
+def term_pieces(t):
+    units = [arg_unjson(u) for u in t['units']]
+    return units, (arg_unjson(t['tail']) if t['tail'] else None)
+
+
+def multi_exposure(hist):
+    """-> (writes to a terminal while another terminal with the same (encoding, errors) holds back an incomplete character,
+           ... while any other terminal does, cuts inside a multi-byte character)"""
+    terms = hist['terms']
+    held = [False] * len(terms)
+    fed = [0] * len(terms)
+    same = other = inside = 0
+    for i in hist['schedule']:
+        t = terms[i]
+        if t['form'] == 'bytes':
+            for j, u in enumerate(terms):
+                if j != i and held[j]:
+                    other += 1
+                    if (u['enc'], u['errors']) == (t['enc'], t['errors']):
+                        same += 1
+        units, tail = term_pieces(t)
+        ends, n = {0}, 0
+        for u in units:
+            n += len(u)
+            ends.add(n)
+        bounds = list(t['cuts']) + [n + len(tail or b'')]
+        b = bounds[fed[i]]
+        fed[i] += 1
+        held[i] = t['form'] == 'bytes' and b not in ends
+        if held[i] and fed[i] <= len(t['cuts']):
+            inside += 1
+    return same, other, inside
+
+
+def run_multi(R, C, hist):
+    """-> (trace events with terminal ids, [(final full state of terminal i, of its twin)] or None when a write raised)"""
+    terms = hist['terms']
+    k = len(terms)
+    ev, objs, recs = [], {}, {}
+
+    def create(tid, t):
+        with warnings.catch_warnings():
+            warnings.simplefilter('ignore')
+            objs[tid] = ANSI.ANSI(R, C, encoding=t['enc'], encoding_errors=t['errors'])
+        recs[tid] = Recorder(objs[tid], R, C, True)
+
+    def write(tid, data, syms):
+        exc = None
+        try:
+            objs[tid].write(data)
+        except Exception as e:
+            exc = e
+        syms = list(syms)
+        while len(syms) > PART:
+            ev.append({'k': 'part', 't': tid, 'syms': syms[:PART]})
+            syms = syms[PART:]
+        ev.append({'k': 'feed', 't': tid, 'syms': syms, 'obs': recs[tid].obs(exc)})
+        return exc
+
+    pcs = []
+    for i, t in enumerate(terms):            # the twins: the same input at once, each on a fresh object of its own
+        units, tail = term_pieces(t)
+        pcs.append(pieces_of(units, t['cuts'], t['form'], tail))
+        create(k + i + 1, t)
+        data, done = pieces_of(units, [], t['form'], tail)[0]
+        if write(k + i + 1, data, [t['syms'][j] for j in done]) is not None:
+            return ev, None
+    for i, t in enumerate(terms):
+        if not t['lazy']:
+            create(i + 1, t)
+    nxt = [0] * k
+    for i in hist['schedule']:
+        if i + 1 not in objs:
+            create(i + 1, terms[i])
+        data, done = pcs[i][nxt[i]]
+        nxt[i] += 1
+        if write(i + 1, data, [terms[i]['syms'][j] for j in done]) is not None:
+            return ev, None
+    for i in range(k):
+        ev.append({'k': 'same', 't': i + 1, 'u': k + i + 1})
+    return ev, [(full_state(objs[i + 1], R, C, None), full_state(objs[k + i + 1], R, C, None)) for i in range(k)]
+
+
+def describe_multi(hist):
+    out = []
+    for i, t in enumerate(hist['terms']):
+        units, tail = term_pieces(t)
+        out.append('terminal %d (%s/%s, %s%s): %s' % (i + 1, t['enc'], t['errors'], t['form'], ', created at its first write' if t['lazy'] else '',
+                                                     ' | '.join(repr(d) for d, _ in pieces_of(units, t['cuts'], t['form'], tail))))
+    return out + ['order of the writes (terminal ids): %s' % ' '.join(str(i + 1) for i in hist['schedule'])]
+
+
+def multi_case(R, C, hist, col, tid):
+    """run one interleaved history; exact final states of every terminal against its twin; -> trace for TLC"""
+    ev, finals = run_multi(R, C, hist)
+    case = {'kind': 'ansi-multi', 'rows': R, 'cols': C, 'hist': hist}
+    col.count['evaluations'] += 1
+    if finals is not None:
+        bad = [i for i, (a, b) in enumerate(finals) if a != b]
+        if bad:
+            i = bad[0]
+            col.add('C18:chunking', case, {'history': describe_multi(hist), 'terminal': i + 1,
+                                           'state_after_its_pieces': repr(finals[i][0])[:600],
+                                           'state_of_a_fresh_terminal_fed_the_same_input_at_once': repr(finals[i][1])[:600]},
+                    {'rows': R, 'cols': C, 'enc': hist['terms'][i]['enc'], 'interleaved': True})
+        else:
+            col.count['nontrivial'] += 1
+    return {'id': tid, 'ev': ev, 'meta': dict(case)}
+
+
+def _multi_worker(rng_):
+    lo, hi = rng_
+    os.chdir(_G['cwd'])
+    col = Collector()
+    col.traces = []
+    for i in range(lo, hi):
+        rng = random.Random(_G['seed'] * 86028121 + i)
+        R, C = MULTI_SIZES[i % len(MULTI_SIZES)]
+        hist = multi_history(rng, R, C)
+        same, other, inside = multi_exposure(hist)
+        col.count['multi:histories'] += 1
+        col.count['multi:terminals'] += len(hist['terms'])
+        col.count['multi:writes'] += len(hist['schedule'])
+        col.count['multi:shape:' + hist['shape']] += 1
+        col.count['multi:cuts_inside_multibyte'] += inside
+        col.count['multi:exposed_same_decoder_config'] += 1 if same else 0
+        col.count['multi:exposed_any'] += 1 if other else 0
+        col.count['multi:truncated_tail'] += sum(1 for t in hist['terms'] if t['tail'])
+        modes = set((t['enc'], t['errors']) for t in hist['terms'])
+        col.count['multi:one_config' if len(modes) == 1 else 'multi:mixed_configs'] += 1
+        for t in hist['terms']:
+            col.count['multi:enc:' + t['enc']] += 1
+            col.count['multi:errors:' + t['errors']] += 1
+        col.traces.append(multi_case(R, C, hist, col, 'm-%d' % i))
+    return col
+
+
 def pool_map_traces(fn, n, shared):
     """like pool_map, for workers that also return col.traces"""
     _G.clear()
@@ -1643,10 +1903,33 @@ def run_c18(ctx):
     ctx.note('chunk independence: %d inputs (%d TLC -simulate behaviours, %d grammar-generated), %d splits into <= 4 pieces fed to '
              'the real emulator (%d with a cut inside a multi-byte character) in %.0fs' % (
                  len(inputs), nsim, len(inputs) - nsim, ch.count['evaluations'], ch.count['cuts_inside_multibyte'], time.time() - t0))
-    # TLC validates the symbol-by-symbol and the whole-input runs of those inputs, and the random sequences
+    # interleaved histories: 2-3 terminals alive at once, pieces fed alternately, twins fed at once
+    t0 = time.time()
+    mh = pool_map_traces(_multi_worker, 400 if quick else 6000, {'cwd': ctx.work, 'seed': ctx.seed})
+    total.merge(mh)
+    mc_ = {k[6:]: v for k, v in mh.count.items() if k.startswith('multi:')}
+    if not mh.nfail:
+        for need in ['exposed_same_decoder_config', 'exposed_any', 'truncated_tail', 'cuts_inside_multibyte', 'one_config',
+                     'mixed_configs'] + ['shape:' + x for x in set(MULTI_SHAPES)] + ['enc:' + x for x in MB_ENCODINGS] + \
+                ['errors:' + x for x in ERRORS]:
+            if mc_.get(need, 0) == 0:
+                raise tlc.TLCError('interleaved histories: nothing of kind %s was generated (%s)' % (need, mc_))
+    ctx.note('interleaved histories: %d histories of 2-3 terminals alive at once (%d terminals, %d writes fed alternately; %d with '
+             'one encoding+error policy for all, %d mixed; %s; %s; shapes %s), %d pieces ending inside a multi-byte character, %d '
+             'terminals left with truncated trailing input; in %d histories a terminal was written to while another one with the '
+             'same encoding+policy held back an incomplete character (%d: any other terminal); every terminal compared with a '
+             'fresh terminal fed the same input at once (%.0fs)' % (
+                 mc_.get('histories', 0), mc_.get('terminals', 0), mc_.get('writes', 0), mc_.get('one_config', 0),
+                 mc_.get('mixed_configs', 0), ', '.join('%s x%d' % (e, mc_.get('enc:' + e, 0)) for e in MB_ENCODINGS),
+                 ', '.join('%s x%d' % (e, mc_.get('errors:' + e, 0)) for e in ERRORS),
+                 ', '.join('%s x%d' % (x, mc_.get('shape:' + x, 0)) for x in sorted(set(MULTI_SHAPES))),
+                 mc_.get('cuts_inside_multibyte', 0), mc_.get('truncated_tail', 0), mc_.get('exposed_same_decoder_config', 0),
+                 mc_.get('exposed_any', 0), time.time() - t0))
+    # TLC validates the symbol-by-symbol and the whole-input runs of those inputs, the interleaved histories (one
+    # reference state per terminal), and the random sequences
     t0 = time.time()
     corpus = ansi_random_traces(ctx, quick)
-    for t in ch.traces:
+    for t in ch.traces + mh.traces:
         corpus.setdefault((t['meta']['rows'], t['meta']['cols']), []).append(t)
     gen_s = time.time() - t0
     tstats = {'verdicts': Counter(), 'drift_samples': [], 'tlc_states': 0, 'traces': 0, 'events': 0, 'cmd': ''}
@@ -1662,6 +1945,8 @@ def run_c18(ctx):
         ', '.join('%s x%d' % kv for kv in sorted(tstats['verdicts'].items()))))
     st2 = trace_self_test(ctx, 'C18')
     ctx.note('binding self-test (trace): ' + ', '.join('%s -> %s' % kv for kv in sorted(st2.items())))
+    st3 = multi_self_test(ctx)
+    ctx.note('binding self-test (interleaved history): ' + ', '.join('%s -> %s' % kv for kv in sorted(st3.items())))
     if ctx.drift:
         d = (total.drift + tstats['drift_samples'])[:3]
         print('SPEC-DRIFT property=C18: %d disagreement(s) with AnsiFsm that keep the stated property, e.g. %s' % (
@@ -1681,12 +1966,16 @@ def run_c18(ctx):
         'rule': 'one implementation test per transition (pre-state, Feed(symbol), post-state) of the dumped TLC state graphs on a '
                 'real ANSI object built in the pre-state (str / bytes in latin-1, utf-8, cp437; write / process / process_list); '
                 'non-trivial = passed and the state changed (distinct (state, symbol) pairs; exhaustive refers to these graphs); plus '
-                'every split of every chunking input into <= 4 pieces (non-trivial = a real split that passed); plus recorded '
-                'runs validated by TLC (ScreenAnsiTrace)',
+                'every split of every chunking input into <= 4 pieces (non-trivial = a real split that passed); plus interleaved '
+                'histories of 2-3 terminals (non-trivial = every terminal equals its twin fed at once); plus recorded '
+                'runs validated by TLC (ScreenAnsiTrace, one reference state per terminal)',
         'exhaustive': True,
         'graphs': gstats, 'state_symbol_pairs_replayed': len(pairs),
         'chunking': {'inputs': len(inputs), 'from_tlc_simulate': nsim, 'splits': ch.count['evaluations'],
                      'cuts_inside_multibyte': ch.count['cuts_inside_multibyte'], 'simulate_cmd': simres[:1]},
+        'interleaved_histories': dict(mc_, self_test=st3, oracle='ScreenAnsiTrace keeps one reference state per terminal id; '
+                                      'C18:chunking = last observation of a terminal differs from its twin fed at once; exact '
+                                      'cell contents compared by the harness'),
         'model': {'module': 'MCAnsi', 'runs': [{'cfg': r['cmd'].split('-config ')[1].split()[0], 'distinct': r['distinct'],
                                                 'generated': r['generated'], 'depth': r['depth'], 'wall_s': r['wall_s']} for r in mc],
                   'action_coverage': {k: v[1] for k, v in cov['coverage'].items()}},
@@ -1699,6 +1988,8 @@ def run_c18(ctx):
         'input classes: ESC CR LF BS blank x, every character of the transition table, and one class for all other characters',
         'parameters longer than the interpreter limit for int() (4300 digits) are outside the bounded input length',
         'a disagreement with AnsiFsm that keeps the stated property (after follow-up input) is SPEC-DRIFT, not a violation',
+        'terminals are independent objects: what is written to one terminal is not part of the input of another; interleaved '
+        'histories use utf-8, utf-16-le, shift_jis, gb18030 with replace / ignore / strict (malformed bytes only under replace)',
     ], wall_s=ctx.wall(), violations=nviol + (extra if nviol else 0))
     return status
 
@@ -1732,6 +2023,16 @@ def replay(ctx):
     elif kind == 'chunking':
         units = [arg_unjson(u) for u in c['units']]
         chunk_case(R, C, c['syms'], c['enc'], c['form'], units, col, 3, 1, random.Random(0), only_cuts=c['cuts'])
+    elif kind == 'ansi-multi':
+        for line in describe_multi(c['hist']):
+            print('   ' + line)
+        t = multi_case(R, C, c['hist'], col, 'replay')
+        v, _ = validate(ctx, [{'id': 'replay', 'ev': t['ev']}], R, C, 'replay', procs=1)
+        print('   TLC verdict: %s at event %d' % v['replay'])
+        for e in t['ev'][:v['replay'][1]]:
+            print('     ', json.dumps(e)[:300])
+        if v['replay'][0] != 'ok' and not v['replay'][0].startswith('drift'):
+            col.add(v['replay'][0], c, {'event_index': v['replay'][1] - 1}, {})
     elif kind in ('screen-trace', 'ansi-trace'):
         if kind == 'screen-trace':
             ev = run_screen_script(R, C, c['enc'], [tuple(s) for s in c['script']], c.get('errors', 'replace'))
